@@ -152,7 +152,7 @@ fn reader(o: &mut Vec<Op>, r: &mut Rng, abs: Word, post: bool, contracts: &[Cont
 /// Ops that succeed on any input and change what flows downstream.
 fn producer(o: &mut Vec<Op>, r: &mut Rng) {
     for _ in 0..r.below(4) {
-        match r.below(7) {
+        match r.below(9) {
             0 => o.push(PUSH(r.range(0, 1000))),
             1 => {
                 // tag-dependent value
@@ -165,6 +165,11 @@ fn producer(o: &mut Vec<Op>, r: &mut Rng) {
             5 => {
                 // second word of slot 0 if present, else a constant
                 o.extend([PUSH(0), DLEN, PUSH(r.range(0, 50)), ADD]);
+            }
+            7 => {
+                // fork: every child records its index (and the word it inherited) in its memory
+                let n = r.range(1, 6);
+                o.extend([PUSH(r.range(0, 9)), PUSH(n), COM, PUSH(1), ALOC, STO, COME, POP]);
             }
             _ => o.extend([PUSH(r.range(1, 4)), ALOC, POP]),
         }
@@ -477,7 +482,7 @@ pub fn gen_scenario(r: &mut Rng, o: &GenOpts) -> Scenario {
         }
     }
     // solutions
-    let ns = 1 + r.below(o.max_solutions);
+    let ns = if r.chance(0.004) { 100 } else { 1 + r.below(o.max_solutions) };
     let mut solutions = vec![];
     let mut sol_pred = vec![];
     let mut taken: std::collections::BTreeMap<(ContentAddress, Vec<Word>), Vec<Word>> = Default::default();
